@@ -52,3 +52,52 @@ def c20(work, tier, seed, replay):
                       "options (minus names starting with Set/Add/Update/Del/FromBytes/Unmarshal/Marshal) is called at least once per kind (twice, "
                       "with observations before, between and after), plus seeded sequences of 1..6 calls interleaved with observations; "
                       "non-trivial = all; distinct by value + call sequence")
+
+
+@prop("C03")
+def c03(work, tier, seed, replay):
+    from .props_v4 import validate, replay_file, codec_coverage
+    quick = tier == "quick"
+    if replay:
+        return replay_file(work, "Trace_Crash", replay)
+    t = "" if quick else "_thorough"
+    mcs = [common.require_mc(common.tlc(work, "MC_Label", cfg="MC_Label" + t, workers=8, timeout=2400), "MC_Label"),
+           common.require_mc(common.tlc(work, "MC_Dhcp4Scan", cfg="MC_Dhcp4Scan" + t, workers=8, timeout=2400), "MC_Dhcp4Scan")]
+    nb = common.require_mc(common.tlc(work, "MC_Netboot", cfg="MC_Netboot" + t, workers=4, timeout=1200), "MC_Netboot")
+    mcs.append(nb)
+    cases = [json.loads(c) for c in nb["cases"]]
+    cf = work.path("netboot.cases")
+    open(cf, "w").write("\n".join(cases) + "\n")
+    vh = common.build_vh(work)
+    os.environ["VH_CASES"] = cf
+    try:
+        tr, stats = common.vh_gen(work, vh, "c03", seed, tier, timeout=3000)
+    finally:
+        del os.environ["VH_CASES"]
+    if stats["classes"].get("tlc-conversation") != len(cases):
+        raise Infra("replayed %s of %d TLC conversations" % (stats["classes"].get("tlc-conversation"), len(cases)))
+    viol, tstates, n = validate(work, "Trace_Crash", tr, stats, procs=6 if quick else 12)
+    # make the descriptions useful: what crashed
+    lines = {json.loads(l)["id"]: json.loads(l) for l in open(tr) if '"bad":["' in l or '"outcome"' in l}
+    viol2 = []
+    for desc, ls in viol:
+        e = json.loads(ls[0])
+        what = "; ".join(e.get("bad", []))[:400] if e.get("op") == "Run" else "conversation %s -> %s" % (json.dumps(e.get("conv"))[:300], e.get("outcome"))
+        viol2.append(("%s on input (%d bytes) %s: %s" % (e.get("entry", "netboot"), e.get("len", 0), json.dumps(e.get("in", []))[:200], what), ls))
+    steps = sum(json.loads(l).get("steps", 1) for l in open(tr))
+    cov = codec_coverage(mcs, stats, tstates, n,
+                         "every decoding entry point (dhcpv4.FromBytes, Options.FromBytes, dhcpv6.FromBytes, MessageFromBytes, RelayMessageFromBytes, "
+                         "ParseOption for every typed code, DUIDFromBytes, rfc1035label.FromBytes, iana.Archs.FromBytes, BroadcastRawUDPConn.ReadFrom) "
+                         "on: the exhaustive small-scope sets of the wire grammars (length <= 4), valid values of every option type and the vendor "
+                         "strings the zero-touch parsers look for, 6 structural mutations per valid value (truncate, set/perturb a byte, splice, "
+                         "append), inputs of 4096..65507 bytes; for each accepted input <= 4096 bytes every reflected niladic exported method of the "
+                         "value, its option container and its options, String/Summary, re-encode, the reply / relay-reply / request builders, "
+                         "relay decapsulation, ExtractMAC, ztpv4/ztpv6 extractors, netboot extractors; all netboot conversations of 0..%d messages "
+                         "enumerated by TLC (MC_Netboot); each step under recover() and a 20 s watchdog; non-trivial = more than one step ran; "
+                         "distinct by entry + input" % (3 if quick else 4), False)
+    cov["steps_executed"] = steps
+    cov["tlc_behaviours_replayed"] = len(cases)
+    return dict(violations=viol2, coverage=cov, assumptions=[
+        "grammar-derived exhaustive small scope + structural mutation + specification-enumerated conversations; not coverage-guided fuzzing",
+        "a step that panics or does not return within 20 s is a crash; TLC requires every recorded run to have none",
+        "netboot outcomes are compared with the total outcome function of spec/Netboot.tla"])
